@@ -331,7 +331,7 @@ class ModelBase:
                     return const(int(cval(a0)) if name == 'int' else float(cval(a0)))
                 except Exception:
                     pass
-            keep = a0.only('mono', 'geo', 'idx', 'axis', 'sym', 'deps', 'taint', 'mono_unknown')
+            keep = a0.only('mono', 'geo', 'idx', 'axis', 'sym', 'deps', 'taint', 'mono_unknown', 'minwidth', 'pair_width', 'pair_pos', 'pair_src', 'pair_seq')
             return keep.w(ty=name, cast=name)
         if name == 'str':
             if a0 is not None and a0.ty == 'str':
@@ -354,8 +354,15 @@ class ModelBase:
             if len(args) == 1:
                 el = self.iter_item(interp, st, a0, None, None)
                 interp.emit('minmax', node, which=name, arg=a0)
-                return el.w(deps=d)
-            return join_all(args).w(deps=d, const=None, minmax=(name, list(args)))
+                out = el.w(deps=d)
+                if name == 'min' and (el.pair_width is not None or el.minwidth is not None):
+                    out = out.w(minwidth=el.pair_width or el.minwidth, pair_width=None)
+                return out
+            out = join_all(args).w(deps=d, const=None, minmax=(name, list(args)))
+            if name == 'min':
+                w = next((a.pair_width or a.minwidth for a in args if a.pair_width is not None or a.minwidth is not None), None)
+                out = out.w(minwidth=w, pair_width=None)
+            return out
         if name == 'sum':
             el = self.iter_item(interp, st, a0, None, None)
             m = el.mono.wrap('sum') if el.mono is not None else None
@@ -500,7 +507,15 @@ class ModelBase:
             return AV(ty='tuple', elts=[AV(ty='int', idx=self.enum_index_kind(it.inner)),
                                         self.iter_item(interp, st, it.inner, node, stmt)])
         if ty == 'zip':
-            return AV(ty='tuple', elts=[self.iter_item(interp, st, x, node, stmt) for x in it.inners])
+            elts = []
+            for x in it.inners:
+                el = self.iter_item(interp, st, x, node, stmt)
+                sh = x.shifted
+                # zip(e[:-1], e[1:]): consecutive pairs of one sequence
+                if sh is not None and el is not None and (sh[0], sh[3]) in ((0, 1), (1, 0)):
+                    el = el.w(pair_pos=sh[0], pair_src=sh[1], pair_seq=x.shifted_of)
+                elts.append(el)
+            return AV(ty='tuple', elts=elts)
         if ty == 'dict':
             if it.keyelem is not None:
                 return it.keyelem
